@@ -101,7 +101,9 @@ func TestStrLibAgainstNative(t *testing.T) {
 		strOp{"upper", L.toUpper(s), strings.ToUpper},
 		strOp{"replaceNL", L.replaceByte(s, '\n', " "), func(x string) string { return strings.ReplaceAll(x, "\n", " ") }},
 		strOp{"unescapeRefs", L.unescapeRefs(s, basicRefs), func(x string) string {
-			r := strings.NewReplacer("&amp;", "&", "&lt;", "<", "&gt;", ">", "&quot;", "\"", "&#34;", "\"", "&#39;", "'", "&#13;", "\r")
+			// longer spellings first: strings.Replacer prefers the earlier pair at the same position
+			r := strings.NewReplacer("&amp;", "&", "&lt;", "<", "&gt;", ">", "&quot;", "\"", "&#34;", "\"", "&#39;", "'", "&#13;", "\r",
+				"&amp", "&", "&lt", "<", "&gt", ">", "&quot", "\"")
 			return r.Replace(x)
 		}},
 		strOp{"collapse", L.collapseSpaces(s), func(x string) string { return spaces.ReplaceAllString(x, " ") }},
